@@ -426,7 +426,7 @@ def run(chk):
     sc, xye = _load()
     from symex import loader
 
-    chk.functions = loader.describe([xye.save_xye, xye.load_xye, xye._deduce_coord, xye._generate_xye_header])
+    chk.functions = loader.describe_exprs(['xye.save_xye', 'xye.load_xye', 'xye._deduce_coord', 'xye._generate_xye_header'], {**globals(), **locals()})
     jobs = [(hv, cg, n) for hv in (True, False) for cg in (None, 'DIM', 'other') for n in ((1, 2) if chk.tier == 'quick' else (1, 2, 3))]
     run_jobs(chk, job_refusal, jobs)
     run_jobs(chk, job_roundtrip, [1, 2, 3])
